@@ -840,11 +840,40 @@ Definition query_holds (g : graph) (q : query) : Prop :=
   | QGen x r => r = list_max (map (fun p => S (gen g p)) (parents g x))
   | QAllHeads r => sdesc (rev r) /\
                    forall x, In x r <-> x < length g /\ forall y, ~ In x (parents g y)
+  | QHeadsRange rs hs lo hi fs r =>
+      lo = 0 -> (forall i, length (parents g i) <= hi) ->
+      sdesc r /\
+      forall x, In x r <->
+        maximal_in g (fun y => y < length g /\ (exists h, In h hs /\ anc g y h) /\
+                               ~ (exists r0, In r0 rs /\ anc g y r0) /\
+                               match fs with Some l => In y l | None => True end) x
   end.
 
 Lemma query_ok_sound g q : wf g -> query_ok g q = true -> query_holds g q.
 Proof.
-  intros W. destruct q as [a d r|c r|s1 s2 r|x r|r]; simpl.
+  intros W. destruct q as [a d r|c r|s1 s2 r|x r|r|rs hs lo hi fs r]; simpl.
+  6:{ intros H Hlo Hhi.
+      assert (C : (lo =? 0) && forallb (fun ps => length ps <=? hi) g = true).
+      { apply andb_true_iff. split; [now apply Nat.eqb_eq|]. apply forallb_forall. intros ps Hps.
+        apply Nat.leb_le. destruct (In_nth _ _ [] Hps) as (i & _ & <-). apply Hhi. }
+      rewrite C in H. rewrite !andb_true_iff in H. destruct H as [[E _] _].
+      apply lnat_eqb_spec in E. subst r. unfold spec_heads_range.
+      split; [apply sdesc_filter, sdesc_filter, sdesc_all_pos|].
+      intros x. rewrite heads_of_spec by assumption. unfold maximal_in.
+      assert (M : forall y, In y (filter (fun x0 => anc_any_t (ancsets g) hs x0 &&
+                     negb (anc_any_t (ancsets g) rs x0) &&
+                     match fs with Some l => fun x1 => memn x1 l | None => fun _ => true end x0)
+                     (all_pos_desc g)) <->
+                 (y < length g /\ (exists h, In h hs /\ anc g y h) /\
+                  ~ (exists r0, In r0 rs /\ anc g y r0) /\
+                  match fs with Some l => In y l | None => True end)).
+      { intros y. rewrite filter_In, all_pos_in, !andb_true_iff, negb_true_iff.
+        fold (anc_any g hs y). fold (anc_any g rs y).
+        rewrite anc_any_spec by assumption.
+        assert (E : anc_any g rs y = false <-> ~ (exists r0, In r0 rs /\ anc g y r0)).
+        { rewrite <- Bool.not_true_iff_false, anc_any_spec by assumption. tauto. }
+        rewrite E. destruct fs as [l|]; [rewrite memn_spec|]; intuition. }
+      split; intros [H1 H2]; (split; [now apply M|]); intros y Hy; apply H2; now apply M. }
   - rewrite andb_true_iff. intros [E _]. apply eqb_prop in E. subst r. now apply ancb_spec.
   - rewrite andb_true_iff. intros [E _]. apply lnat_eqb_spec in E. subst r.
     split; [apply spec_heads_sdesc|]. intros x. now apply spec_heads_in.
@@ -880,11 +909,12 @@ Lemma query_corr_iff_ok g q : wf g ->
   | QAnc a d _ => d < length g /\ a < length g
   | QHeads c _ => forall x, In x c -> x < length g
   | QCommon s1 s2 _ => (forall x, In x s1 -> x < length g) /\ (forall x, In x s2 -> x < length g)
+  | QHeadsRange _ _ _ _ _ _ => False
   | _ => True
   end ->
   query_corr g q = query_ok g q.
 Proof.
-  intros W. destruct q as [a d r|c r|s1 s2 r|x r|r]; simpl.
+  intros W. destruct q as [a d r|c r|s1 s2 r|x r|r|rs hs lo hi fs r]; simpl; [| | | | |intros []].
   - intros [Ld La]. rewrite (is_ancestor_pos_ok g W a d Ld). simpl.
     destruct (Nat.ltb_spec a (length g)); [|lia]. destruct (Nat.ltb_spec d (length g)); [|lia].
     simpl. now rewrite andb_true_r.
